@@ -695,6 +695,7 @@ func rulesC06(w *World, r *Report) {
 	w.ruleLenEncoder(r, "C06.R2 binary lengths written count the unit the reader pulls", "binary")
 	w.rulePayloadUnits(r, "C06.R2 payload read in the unit the length counts")
 	w.ruleChunkBuffers(r, "C06.R2 each chunk is read with a buffer of its own length")
+	w.ruleChunkContinuation(r, "C06.R2 a value ends with its final chunk: nothing further is read")
 	w.ruleRefOrdinal(r, "C06.R2 a back-reference is written as x51 + int and carries the registrar's ordinal")
 	w.ruleWriterProductions(r, "C06.R2 every value written is framed as exactly one production")
 	w.ruleLoopExits(r, "C06.R3 loop exit discipline", false)
